@@ -490,3 +490,75 @@ def run(ck):
                       and const_value(g, g.kids(i)[1]) is not None)
     ck.ob('C15.endian', 'C15.endian/u32', shifts(AN + 'write_u32', '>>') == [8, 16, 24] and shifts(AN + 'read_u32', '<<') == [8, 16, 24], enc.loc(),
           'write_u32 / read_u32 use the shift set {24,16,8,0} (big endian on both sides)')
+
+    # ---- R-FLOW: the encoder writes field values verbatim ------------------------------------------------------------
+    # every scalar handed to write_u32 / write_u64 / push_back in a payload branch is a payload field (or the size() of one),
+    # through casts, .count() and `? 1 : 0` only — no helper, clamp, min/max or arithmetic may change the value on the way
+    nscal = 0
+    for ptype, (f, _lay) in sorted(enc_by_type.items()):
+        for i in f.walk():
+            nd = f.nodes[i]
+            c = (nd.get('callee') or '')
+            arg = None
+            if nd['k'] == 'CallExpr' and c.split('::')[-1] in ('write_u32', 'write_u64') and len(f.call_args(i)) == 2:
+                arg = f.call_args(i)[1]
+            elif nd['k'] == 'CXXMemberCallExpr' and c.endswith('::push_back') and len(f.call_args(i)) == 1:
+                arg = f.call_args(i)[0]
+            if arg is None:
+                continue
+            nscal += 1
+            bad = _not_verbatim(f, arg)
+            ck.ob('C15.verbatim', 'C15.verbatim/%s#%d' % (ptype, nscal), bad is None, f.loc(i),
+                  'the encoder writes `%s` as it is%s' % (f.text(arg)[:60], '' if bad is None else ' — ' + bad))
+    ck.floor('C15.verbatim', 'scalar writes in the payload encoders', nscal, 12)
+
+
+def _not_verbatim(f, root):
+    from sa.paths import unique_init
+    work = [root]
+    seen = set()
+    while work:
+        i = work.pop()
+        if i in seen:
+            continue
+        seen.add(i)
+        nd = f.nodes[i]
+        k = nd['k']
+        if k in ('ImplicitCastExpr', 'CXXStaticCastExpr', 'CStyleCastExpr', 'CXXFunctionalCastExpr', 'ParenExpr', 'ExprWithCleanups', 'MaterializeTemporaryExpr',
+                 'ConstantExpr', 'CXXBindTemporaryExpr'):
+            work += f.kids(i)
+            continue
+        if k == 'MemberExpr':
+            if nd.get('mk') == 'Field':
+                continue
+            work += f.kids(i)
+            continue
+        if k == 'CXXMemberCallExpr':
+            m = (nd.get('callee') or '').split('::')[-1]
+            if m in ('count', 'size'):
+                work += f.kids(i)
+                continue
+            return 'call of %s' % m
+        if k == 'DeclRefExpr':
+            if nd.get('dk') == 'Var' and not nd.get('g'):
+                init = unique_init(f, nd['d'], i)
+                if init is not None:
+                    work.append(init)
+                    continue
+            continue
+        if k == 'ConditionalOperator':
+            ks = f.kids(i)
+            if all(f.nodes[f.strip(x)].get('cv') in ('0', '1') for x in ks[1:]):
+                work.append(ks[0])
+                continue
+            return 'conditional value'
+        if k in ('IntegerLiteral', 'CXXBoolLiteralExpr'):
+            continue
+        if k in ('CallExpr', 'CXXOperatorCallExpr', 'BinaryOperator', 'UnaryOperator', 'CompoundAssignOperator'):
+            return '%s changes the value before it is written' % (short_(nd.get('callee')) if nd.get('callee') else 'operator ' + str(nd.get('op')))
+        return 'unrecognised expression %s' % k
+    return None
+
+
+def short_(q):
+    return (q or '').replace('ephemeralnet::', '').replace('(anonymous namespace)::', '')
